@@ -28,7 +28,7 @@ CLASSES = [
     "rekey", "rekey_collision", "type_only_rekey", "move", "clone", "remove", "remove_then_reinit", "shallow_copy",
     "shallow_copy_follows", "pickle_independent", "deepcopy_independent", "cache_update", "stray_planted",
     "two_projects", "update_sp_conflict", "move_collision", "clone_collision", "move_uninitialised",
-    "stray_id_named_file", "rekey_onto_id_named_file", "stale_handle_resynced_by_remove", "gone_id_reopened", "gone_id_unknown", "stale_handle_observed", "lazy_handle_left_alone",
+    "stray_id_named_file", "rekey_onto_id_named_file", "stale_handle_resynced_by_remove", "gone_id_reopened", "gone_id_unknown", "stale_handle_observed", "lazy_handle_left_alone", "refused_invalid_statepoint",
     "doc_assigned_live_view_same_job", "doc_assigned_live_view_other_job",
 ]
 ASSUMPTIONS = [
@@ -86,6 +86,7 @@ OP = st.one_of(
     fd(op="sp_list_set", h=H, k=KEYS, v=st.sampled_from([0, 1.0, "z"])),
     fd(op="sp_assign", h=H, sp=sps, via=st.sampled_from(["sp", "statepoint"])),
     fd(op="sp_reset", h=H, sp=sps),
+    fd(op="sp_assign_invalid", h=H, how=st.integers(0, 3), via=st.sampled_from(["sp", "statepoint"])),
     fd(op="sp_update", h=H, m=st.dictionaries(KEYS, VALS, max_size=2)),
     fd(op="sp_retype", h=H, k=H, how=st.integers(0, 1), route=st.sampled_from(["assign", "update_statepoint", "set", "sp_update"])),
     fd(op="update_statepoint", h=H, m=st.dictionaries(KEYS, VALS, max_size=2), overwrite=st.booleans()),
@@ -161,6 +162,10 @@ CONSTRUCTED = [
     {"two_projects": False, "ops": [
         {"op": "new_init", "p": 0, "sp": {"a": 0}}, {"op": "write", "h": 0, "name": "f.txt", "data": "x"}, {"op": "plant_idfile", "p": 0, "sp": {"a": 1}},
         {"op": "sp_set", "h": 0, "k": "a", "v": 1}, {"op": "new_id", "p": 0, "k": 0, "how": "id"}, {"op": "touch_sp", "h": 1}]},
+    # an assignment signac refuses, through a lazy handle: the handle is what it was
+    {"two_projects": False, "ops": [
+        {"op": "new_init", "p": 0, "sp": {"a": 1, "b": 2}}, {"op": "new_project", "p": 0}, {"op": "new_id", "p": 0, "k": 0, "how": "id", "lazy": True},
+        {"op": "sp_assign_invalid", "h": 1, "how": 0, "via": "sp"}, {"op": "touch_sp", "h": 1}, {"op": "sp_set", "h": 1, "k": "c", "v": 3}, {"op": "touch_sp", "h": 0}]},
     # a shallow copy of a lazy handle (opened by id / from a cursor in a new session, never looked at): both follow a re-key
     {"two_projects": False, "ops": [
         {"op": "new_init", "p": 0, "sp": {"a": 0}}, {"op": "doc_set", "h": 0, "k": "x", "v": 1}, {"op": "new_project", "p": 0},
